@@ -614,6 +614,16 @@ def runSession (t : TreeTable) : List Segment → Mem → List (List Out) × Tre
     (r.1 :: rs.1, rs.2)
 
 open Spec.OrdMap (Segment) in
+/-- the comparator-call log of a session: `(number of keys before the call, comparator calls)` for every
+table call (iterator calls make no comparator call in the C code) -/
+def sessionCounts (t : TreeTable) : List Segment → Mem → List (Nat × Nat)
+  | [], _ => []
+  | .calls ops :: rest, m =>
+    (t.run cmp ops m).2.1 ++ sessionCounts (t.run cmp ops m).2.2.1 rest (t.run cmp ops m).2.2.2
+  | .iterate prog :: rest, m =>
+    sessionCounts (t.iterRun cmp t.iterInit prog m).2.1 rest (t.iterRun cmp t.iterInit prog m).2.2.2
+
+open Spec.OrdMap (Segment) in
 /-- every iterator session of the session respects the precondition of `iter_remove` -/
 def SessionValid (t : TreeTable) : List Segment → Mem → Prop
   | [], _ => True
